@@ -208,7 +208,7 @@ def join(inputs, on = None, renames = None, defaults = None):
     tbl_def2 = reducer(_join_dictable_with_defaults, pairs, (None, None))
     tbl_def = _join_dictable_with_defaults(tbl_def1,tbl_def2) 
     res = tbl_def[0](**non_dictables)
-    return res.sort(as_list(on))
+    return res.sort(*as_list(on))
 
 class perdictable(wrapper):
     """
